@@ -586,6 +586,23 @@ def subseq(stmts, texts):
     return i == len(texts)
 
 
+def cond_facts(conds):
+    """Atomic facts [(text, value)] implied by guarding conditions: `not E` under p is E under not p, a true
+    conjunction makes each conjunct true, a false disjunction each disjunct false; anything else stays whole."""
+    out = []
+    def facts(t, pol):
+        while isinstance(t, ast.UnaryOp) and isinstance(t.op, ast.Not):
+            t, pol = t.operand, not pol
+        if isinstance(t, ast.BoolOp) and ((isinstance(t.op, ast.And) and pol) or (isinstance(t.op, ast.Or) and not pol)):
+            for v in t.values:
+                facts(v, pol)
+        else:
+            out.append((unparse(t, 400), pol))
+    for c in conds:
+        facts(c[-2], c[-1])
+    return out
+
+
 def cond_holds(conds, text, value=True):
     """Among guarding conditions [(if-node, test, polarity)] (or [(test, polarity)]): is the expression
     `text` known to be `value`?  `not E` under polarity p counts as E under (not p); a true conjunction makes each
